@@ -72,6 +72,8 @@ Property clause → theorem
                                                                           → `lend_interaction_restarts_clock`, `lend_reward_interaction_restarts_clock`
 * two interactions (stored index + clock in between) ≤ one + 4·10⁻¹⁸ per unit of principal, interest and reserve share
                                                                           → `borrow_two_interactions_not_more`
+* `ReBalanceStableRates`: new stable rate = pool's current one or the old one (only within 20 points and below 90 % utilisation)
+                                                                          → `stable_rebalance_spec`
 -/
 namespace Comdex.C18
 open Comdex Comdex.LendRates
@@ -755,6 +757,33 @@ theorem borrow_two_interactions_not_more (a : AccB) (n : Int) (apr rr : Dec) (t1
   · unfold accrueBorrow AccB.after; simp [b2]
   · unfold accrueBorrow; simp [b3]
 
+/-- **`ReBalanceStableRates`** (the only code that changes the rate OF A POSITION; called by the liquidation modules right after the
+interest up to now has been charged at the old stable rate): the result is the pool's current stable rate or the old rate; it is the
+old rate only when the two are less than 20 points apart and utilisation is below 90 %; and re-balancing twice is re-balancing once. -/
+theorem stable_rebalance_spec (s st u : Dec) :
+    (rebalance s st u = st ∨ (rebalance s st u = s ∧ s < st + perc1 ∧ st < s + perc1 ∧ u < perc2)) ∧
+    rebalance (rebalance s st u) st u = rebalance s st u := by
+  unfold rebalance perc1 perc2
+  simp only [Dec] at s st u ⊢
+  constructor
+  · by_cases h1 : st + 200000000000000000 ≤ s
+    · left; simp [h1]
+    · by_cases h2 : s + 200000000000000000 ≤ st ∨ 900000000000000000 ≤ u
+      · left; simp [h1, h2]
+      · right
+        have e : (if st + 200000000000000000 ≤ s then st else if s + 200000000000000000 ≤ st ∨ 900000000000000000 ≤ u then st else s) = s := by
+          simp [h1, h2]
+        refine ⟨e, ?_, ?_, ?_⟩ <;> omega
+  · by_cases h1 : st + 200000000000000000 ≤ s
+    · have h3 : ¬ (st + 200000000000000000 ≤ st) := by omega
+      simp only [h1, if_true, h3, if_false]
+      split <;> rfl
+    · by_cases h2 : s + 200000000000000000 ≤ st ∨ 900000000000000000 ≤ u
+      · have h3 : ¬ (st + 200000000000000000 ≤ st) := by omega
+        simp only [h1, if_false, h2, if_true, h3]
+        split <;> rfl
+      · simp only [h1, h2, if_false]
+
 /-- the same for a lend position (`IterateLends`): after the handler stored `(index, now)`, a second reward calculation in the
 same block accrues nothing into the tracker whatever the lend rate has become. -/
 theorem lend_reward_interaction_restarts_clock (a : AccL) (r : LendAccrual) (now n : Int) (apr' : Dec)
@@ -898,6 +927,9 @@ example : accrueBorrow (AccB.after ⟨1, 1000000000000000000, 100000000000000000
       { ext := .val 25000000000000000000000000 5000000000000000000000000, gi := 1025000000000000000, rgi := 1005000000000000000 }
       1715778800) 1000000000 false 3000000000000000000 (some 10000000000000000) 1715778800
     = { ext := .val 0 0, gi := 1025000000000000000, rgi := 1005000000000000000 } := by decide
+example : rebalance 300000000000000000 100000000000000000 500000000000000000 = 100000000000000000 ∧
+    rebalance 299999999999999999 100000000000000000 500000000000000000 = 299999999999999999 ∧
+    rebalance 299999999999999999 100000000000000000 900000000000000000 = 100000000000000000 := by decide
 end lendExamples
 
 end Comdex.C18
